@@ -34,7 +34,8 @@ LEVEL = "model_checking"
 FUNCTIONS = ["aldy.profile.Profile.get_sam_profile_data", "aldy.sam.Sample._load_cn_region",
              "aldy.coverage.Coverage.{_normalize_coverage,region_coverage,"
              "diploid_avg_coverage,average_coverage,total}", "aldy.cn.estimate_cn "
-             "(region_cov assembly, via C03 wrapper)"]
+             "(region_cov assembly, via C03 wrapper)", "aldy.sam._in_region",
+             "aldy.profile.Profile.load (profile-file route)"]
 STUBS = ["Coverage.total -> symbolic per-position depth (scale part); float(): "
          "aldy.coverage.float shadowed; float part: numbers are z3 Float64 proxies and "
          "the gene is a stub with single-position regions (so that sum() is exact)"]
@@ -63,6 +64,9 @@ def configs(tier):
     if tier == "thorough":
         c.append({"kind": "float", "solver": "cvc5"})
     c.append({"kind": "depth"})
+    # which reads count towards the neutral / gene depth: the locus test on symbolic read
+    # and region intervals (shared harness with C06)
+    c.append({"kind": "region"})
     # the three CIGAR depth walkers must agree (shared harness with C06)
     for b in ("hg19", "hg38"):
         c.append({"kind": "walkers", "genome": b, "nops": 2,
@@ -75,6 +79,9 @@ def run_config(cfg):
     if cfg["kind"] == "walkers":
         import c06
         return c06.run_walkers(cfg)
+    if cfg["kind"] == "region":
+        import c06
+        return c06.run_region(cfg)
     return globals()["run_" + cfg["kind"]](cfg)
 
 
@@ -523,4 +530,7 @@ def replay_none(o):
 
 
 def replay(o):
+    if o["kind"] in ("region", "none") and "replay_" + o["kind"] not in globals():
+        import c06
+        return c06.replay(o)
     return globals()["replay_" + o["kind"]](o)
